@@ -27,6 +27,7 @@ type c06Case struct {
 	LongKey string            `json:"long_value_key,omitempty"` // the value under this key is regenerated with LongLen bytes
 	LongInt int               `json:"long_int_key,omitempty"`   // -1: none
 	LongLen int               `json:"long_len,omitempty"`
+	Many    int               `json:"many_entries,omitempty"` // this many generated entries in BOTH maps (more than any fixed budget an encoder or decoder might have)
 	Payload int               `json:"payload_len"`
 	Writer  string            `json:"writer"` // tobytes | bytes | default
 	Env     EnvCfg            `json:"env"`
@@ -55,6 +56,16 @@ func (k *c06Case) params() ttheader.EncodeParam {
 		for a, b := range k.Str {
 			p.StrInfo[a] = b
 		}
+	}
+	for i := 0; i < k.Many; i++ {
+		if p.IntInfo == nil {
+			p.IntInfo = map[uint16]string{}
+		}
+		if p.StrInfo == nil {
+			p.StrInfo = map[string]string{}
+		}
+		p.IntInfo[uint16(100+i*3)] = fmt.Sprintf("int-value-%d", i)
+		p.StrInfo[fmt.Sprintf("key-%04d", i)] = fmt.Sprintf("v%d", i%10)
 	}
 	if k.LongLen > 0 {
 		if k.LongInt >= 0 {
@@ -88,8 +99,9 @@ func c06One(c *mc.Ctx, k c06Case) (encoded bool) {
 	for a, b := range p.IntInfo {
 		snapInt[a] = b
 	}
+	strWasNil := p.StrInfo == nil
 	defer func() {
-		if !mapsEqStr(p.StrInfo, snapStr) || !mapsEqInt(p.IntInfo, snapInt) || (p.StrInfo == nil) != (k.Str == nil && !(k.LongLen > 0 && k.LongInt < 0)) {
+		if !mapsEqStr(p.StrInfo, snapStr) || !mapsEqInt(p.IntInfo, snapInt) || (p.StrInfo == nil) != strWasNil {
 			bad("params-modified", "Encode modified the caller's parameter maps (StrInfo %d -> %d entries, IntInfo %d -> %d)", len(snapStr), len(p.StrInfo), len(snapInt), len(p.IntInfo))
 		}
 	}()
@@ -422,6 +434,18 @@ func c06Run(c *mc.Ctx) {
 		}
 	}
 	c.Done("all 65536 flag words; all 256 protocol ids x 3 writers; sequence ids 0/-1/min/max/every single bit")
+	// (1b) many entries in both maps
+	for _, n := range []int{3, 7, 8, 9, 15, 16, 17, 31, 32, 33, 64, 65, 128, 255, 256, 257, 1000, 2000} {
+		if !c.Mine() {
+			continue
+		}
+		for _, w := range []string{"tobytes", "bytes", "default", "zc"} {
+			c.Distinct("many", n, w)
+			c06One(c, c06Case{Flags: 1, Seq: int32(n), Proto: 0, LongInt: -1, Many: n, Payload: 5, Writer: w})
+			c06One(c, c06Case{Flags: 1, Seq: int32(n), Proto: 0, LongInt: -1, Many: n, Payload: 5, Writer: w, Stream: true, Env: EnvCfg{Chunk: 1000, ErrWithLast: true}})
+		}
+	}
+	c.Done("maps of 3..2000 entries in both sections on every writer, bytes- and stream-backed decode")
 	// (2) info maps: all maps with <= 2 (thorough 3) entries over the key/value alphabets; every padding residue occurs
 	maxE := 2
 	if th {
